@@ -1,11 +1,99 @@
+import OdmlModel.Model.Rdf
+import OdmlModel.Model.Query
 import Driver.Util
 import Driver.Loop
+import Driver.RdfCodec
 open Lean Drv
 
 namespace DrvC20
+open Rdf Query RdfCodec
 
-/-- Stub: replaced when the model of C20 is built. -/
-def handle (_j : Json) : Except String Json := throw "model of C20 not built"
+def decKind (s : String) : Except String Kind :=
+  match s with
+  | "Doc" => pure .doc
+  | "Sec" => pure .sec
+  | "Prop" => pure .prop
+  | _ => throw "bad kind"
+
+def encKind : Kind → Json
+  | .doc => jstr "Doc"
+  | .sec => jstr "Sec"
+  | .prop => jstr "Prop"
+
+def decStrs (j : Json) (k : String) : Except String (List Str) := do
+  (← getArr j k).toList.mapM fun x => match x with
+    | .str s => pure s.toList
+    | _ => throw "bad string list"
+
+def decPair (j : Json) : Except String Pair := do
+  let vs : List Str := match decStrs j "vs" with
+    | .ok l => l
+    | .error _ => []
+  pure ⟨← decKind (← getStr j "k"), (← getStr j "a").toList, (← getStr j "v").toList, vs⟩
+
+def encPair (p : Pair) : Json :=
+  jobj [("k", encKind p.kind), ("a", jchars p.attr), ("v", jchars p.val),
+        ("vs", jarr (p.vals.map jchars))]
+
+def encOptTerm : Option Rdf.Term → Json
+  | none => Json.null
+  | some t => encTerm t
+
+def encRow (r : Option Rdf.Term × Option Rdf.Term × Option Rdf.Term) : Json :=
+  jarr [encOptTerm r.1, encOptTerm r.2.1, encOptTerm r.2.2]
+
+def encQ (q : QParams) : Json := jarr ((q.doc ++ q.sec ++ q.prop).map encPair)
+
+def decPT (j : Json) : Except String PT :=
+  match j with
+  | .str "?d" => pure (.var .d)
+  | .str "?s" => pure (.var .s)
+  | .str "?p" => pure (.var .p)
+  | .str "?v" => pure (.var .v)
+  | other => do pure (.const (← decTerm other))
+
+def decPat (j : Json) : Except String Pat :=
+  match j with
+  | .arr #[a, b, c] => do pure ⟨← decPT a, ← decPT b, ← decPT c⟩
+  | _ => throw "bad pattern"
+
+def encBinding (b : Binding) : Json :=
+  jarr [encOptTerm b.d, encOptTerm b.s, encOptTerm b.p, encOptTerm b.v]
+
+def noSub : Cfg := ⟨false, []⟩
+
+def handle (j : Json) : Except String Json := do
+  let op ← getStr j "op"
+  match op with
+  | "subsets" =>
+    let pairs ← (← getArr j "pairs").toList.mapM decPair
+    pure (jarr ((subsets pairs).map fun c => jarr (c.map encPair)))
+  | "fuzzy" =>
+    let f : FParams := ⟨← decStrs j "doc", ← decStrs j "sec", ← decStrs j "prop", ← decStrs j "search"⟩
+    pure (jobj [("pairs", jarr ((fuzzyPairs f).map encPair)),
+                ("as_match", jarr ((matchPairs (fuzzyAsMatch f)).map encPair))])
+  | "find" =>
+    let docs ← (← getArr j "docs").toList.mapM decDoc
+    let pairs ← (← getArr j "pairs").toList.mapM decPair
+    let g := exportRdf noSub docs
+    let executed := jarr ((subsets pairs).map fun c =>
+      let q := groupPairs c
+      jobj [("q", encQ q), ("safe", jbool (querySafeB q)),
+            ("rows", match queryRows g q with
+              | .ok rows => jarr (rows.map encRow)
+              | .error _ => jstr "parse-error"),
+            ("direct", jarr ((directEval docs q).map encRow))])
+    let found := match findRows g pairs with
+      | .ok l => jarr (l.map fun e => jobj [("q", encQ e.1), ("rows", jarr (e.2.map encRow))])
+      | .error _ => jstr "parse-error"
+    pure (jobj [("all", executed), ("found", found),
+                ("wf", jbool (wfDocsB docs)), ("repr", jbool (rdfReprB docs)),
+                ("norepo", jbool (noRepoB docs))])
+  | "bgp" =>
+    let g ← (← getArr j "triples").toList.mapM decTriple
+    let pats ← (← getArr j "pats").toList.mapM decPat
+    pure (jarr ((solutions g pats).map encBinding))
+  | _ => throw s!"unknown op {op}"
 
 end DrvC20
 
